@@ -288,6 +288,18 @@ def module_facts(rep, rule, prog, cg):
             rep.ok(rule, key, '(v << 1) ^ (v >> %d)' % (bits - 1), module_fns(prog, cg, s)['encode'].loc())
         else:
             rep.bad(rule, key, module_fns(prog, cg, s)['encode'].loc(), 'prost %s must ZigZag-encode ((v << 1) ^ (v >> %d)) and differ from %s; found %s' % (s, bits - 1, plain, show(t)))
+        # a 32-bit ZigZag value travels as an unsigned 32-bit varint (at most 5 bytes): the widening to the u64 that
+        # encode_varint takes must start from u32 -- from i32 it would sign-extend values with bit 31 set to 10 bytes
+        if bits == 32:
+            key = '%s|%s|32-bit varint' % (rule, s)
+            x = t
+            while x[0] in ('ref', 'deref'):
+                x = x[1]
+            src = x[4] if x[0] == 'cast' and x[2] == 'u64' and len(x) > 4 else None
+            if src == 'u32':
+                rep.ok(rule, key, 'widened to u64 from u32 (zero-extended)', module_fns(prog, cg, s)['encode'].loc())
+            else:
+                rep.bad(rule, key, module_fns(prog, cg, s)['encode'].loc(), 'prost %s hands encode_varint a value widened from %s: a ZigZag result with bit 31 set is sign-extended and written as a 10-byte varint, which a conforming 32-bit decoder rejects (found %s)' % (s, src, show(t)))
         # decode side: (v >> 1) ^ -(v & 1)
         mer = module_fns(prog, cg, s).get('merge')
         key = '%s|%s|zigzag decode' % (rule, s)
